@@ -2,13 +2,13 @@
 SPECIFICATION Spec
 CONSTANTS
   ConnKeys = {"k1"}
-  FailKeys = {"f1"}
+  FailKeys = {}
   Msgs <- McNoMsgs
   MaxMsg = 4
   EventAfter = 1
   ClearAfter = 2
   MaxCount = 1
-  MaxHttp = 1
+  MaxHttp = 0
   MaxTcp = 0
   Ticks = FALSE
   EnvStateModules <- McTwo
